@@ -320,8 +320,8 @@ def run(chk):
     utils = loader.load('_utils')
     tof = loader.load('conversion.tof')
     bl = loader.load('conversion.beamline')
-    chk.functions = loader.describe([*fl, utils.as_float_type, utils.float_dtype, utils.elem_unit, utils.elem_dtype, tof._common_dtype,
-                                     tof._energy_constant, bl._drop_due_to_gravity])
+    chk.functions = loader.describe(fl) + loader.describe_exprs(['utils.as_float_type', 'utils.float_dtype', 'utils.elem_unit', 'utils.elem_dtype', 'tof._common_dtype',
+                                                                 'tof._energy_constant', 'bl._drop_due_to_gravity'], {**globals(), **locals()})
     ejobs = []
     djobs = []
     for si, (mod, fname, args, outunit, data) in enumerate(SPECS):
